@@ -27,6 +27,22 @@ CLAIMED = {
              "auto-release sites, finalize gate, interprocedural must-analysis that pthread_once precedes every use of the key.",
         tech="typestate + must-pass dataflow over CFG and call graph, sibling comparison, guard tables",
         ref="DESIGN.md §4 C07"),
+    "C11": dict(
+        text="Structural clauses of the ordered set decided statically: the default comparator does not narrow a pointer difference; in "
+             "remove_node the destructor receives the payload of the node that is freed and payloads moved between nodes are swapped, never "
+             "duplicated; the three traversals have the documented visiting order and stop on a non-zero result; -EEXIST iff the search ended on "
+             "a node; node allocation/free pair with len++/len-- on every path; the destructor is reachable exactly from the removing operations. "
+             "Sortedness for all insertion orders and iterator survival are not decided (shape dependent).",
+        tech="AST/CFG shape rules with copy propagation, implicit-cast (narrowing) inspection, path enumeration, who-calls over resolved function pointers",
+        ref="DESIGN.md §4 C11"),
+    "C12": dict(
+        text="Structural clauses of queue/stack/list decided statically: who writes the queue tail and that NULL is stored there only under a test "
+             "of head/len; node allocation/free pair with len++/len-- on every path of every function; destructor only in the removing operations, "
+             "under a non-NULL test, on the payload of the freed node, never reachable from operations that hand the element back; link/advance "
+             "primitives (enqueue at tail, dequeue/peek at head, push/pop/peek at top, list walks next from data). Arbitrary operation/iterator "
+             "sequences are not decided.",
+        tech="who-writes + control-dependence (must-facts) on CFG, per-path bookkeeping counts, resolved indirect-call reachability",
+        ref="DESIGN.md §4 C12"),
 }
 
 NOT_APPLICABLE = {
